@@ -245,8 +245,8 @@ func (o Ops) Quo(a, b *Int, signed bool) *Int {
 		hi = a.Hi // division by >= 1 (division by zero panics)
 	}
 	op := "quo"
-	if signed {
-		op = "squo"
+	if signed && !nonneg {
+		op = "squo" // (signed division of non-negative operands is the unsigned one)
 	}
 	return o.mk(w, a.Signed, topBits(w), lo, hi, o.opaque(op, w, hi, a, b))
 }
